@@ -12,8 +12,8 @@ META = {
             'no pixel of the fill attribute. Larger random pictures (mazes, spirals, thin diagonal walls, open regions touching the viewport edge, noise in the '
             'fill attribute, seeds on the border and outside the viewport, VIEW and VIEW SCREEN) up to 24x24 (thorough 40x30) in every graphics mode are validated the same way.',
     'note': 'Trusted: TLC, JSON plumbing, the pixel read-back. Tiled PAINT (pattern strings) is outside the statement ("solid PAINT"). '
-            'All 2^9 3x3 bitmaps x 9 seeds every run; 4x4: a residue class of the 2^16 bitmaps (quick: 1/257, thorough: all bitmaps with 1 of 16 seeds each, '
-            'rotating with --seed).',
+            'All 2^9 3x3 bitmaps x 9 seeds every run (quick: one mode/colour set-up of eight, rotating with --seed, thorough: four); 4x4: quick = the 256 bitmaps of one residue '
+            'class mod 257 x 8 seeds, thorough = all 2^16 bitmaps with 1 of the 16 seeds each (rotating with --seed).',
 }
 _CASE = re.compile(r'^<<"CASE", "(.*)">>\s*$')
 
@@ -267,14 +267,14 @@ def run(ctx):
         raise core.MachineryError('Paint_MC emitted %d cases for 3x3' % len(c33))
     setups = [('vga', 9, [1, 4, 14], 2, 4), ('cga', 2, [0, 1, 1], 1, 1), ('pcjr', 3, [7, 3, 0], 7, 3), ('ega', 7, [0, 15, 8], 15, 15),
               ('tandy', 6, [0, 2, 3], 1, 2), ('hercules', 3, [1, 0, 0], 0, 0), ('egamono', 10, [0, 1, 3], 2, 1), ('olivetti', 3, [0, 1, 1], 1, 1)]
-    pick = [setups[ctx.seed % len(setups)], setups[(ctx.seed + 3) % len(setups)]] if ctx.quick() else setups
+    pick = [setups[(ctx.seed + k) % len(setups)] for k in range(ctx.pick(1, 4))]
     for (ad, nr, cols, fill, border) in pick:
         p = Painter(ctx, ad, nr, events)
         p.tiled(c33, 3, 3, cols, fill, border, '3x3')
         p.close()
     # 2. 4x4: residue class of the bitmaps (quick) / all bitmaps with one seed position each (thorough)
     if ctx.quick():
-        c44 = tlc_cases(ctx, 4, 4, 257, ctx.seed % 257, range(16))
+        c44 = tlc_cases(ctx, 4, 4, 257, ctx.seed % 257, [(2 * k + ctx.seed) % 16 for k in range(8)])
     else:
         c44 = []
         for s in range(16):
